@@ -52,7 +52,7 @@ _STATS = re.compile(r'(\d+) states generated, (\d+) distinct states found')
 _DEPTH = re.compile(r'The depth of the complete state graph search is (\d+)')
 _INV = re.compile(r'Invariant (\S+) is violated')
 _PROP = re.compile(r'Action property (\S+) is violated|Temporal properties were violated|'
-                   r'property (\S+) is violated')
+                   r'Temporal property (\S+) was violated|property (\S+) is violated')
 _COV = re.compile(r'^<(\w+) line \d+, col \d+ to line \d+, col \d+ of module (\w+)>: (\d+):(\d+)', re.M)
 
 
@@ -120,7 +120,7 @@ def run_tlc(module: str, cfg: str, *, scratch: Path, workers: int | str = 'auto'
     else:
         m = _PROP.search(out)
         if m:
-            res.violated = m.group(1) or m.group(2) or 'temporal'
+            res.violated = m.group(1) or m.group(2) or m.group(3) or 'temporal'
     if res.violated:
         i = out.find('Error:')
         res.cex = out[i:i + 20000]
